@@ -37,6 +37,11 @@ Definition bump (a : aux) (g c : N) : aux :=
      a_used := ((g, c), used_of a g c + 1) ::
                filter (fun e => negb ((fst (fst e) =? g) && (snd (fst e) =? c))) (a_used a) |}.
 
+(* per-connection burst of a policy's limiter; a nil RateLimitConfig means DefaultRateLimiterConfig(), whose
+   PerConnectionBurstSize is 100 (the generated schedules stay far below it) *)
+Definition default_burst : N := 100.
+Definition burst_of (p : policy) : N := match p_cfg p with Some b => b | None => default_burst end.
+
 Definition pc_of (s : state) (r : N) : option rpc := match reqs s r with Some q => Some (r_pc q) | None => None end.
 
 (* does the model, taking step l from s to s', predict the observation o? *)
@@ -63,10 +68,7 @@ Definition predicts (p0 : policy) (a : aux) (s s' : state) (l : label) (o : list
       | Some q => match r_lim q, r_conn q with
                   | Some g, Some c =>
                       if r_en q
-                      then match p_cfg (pol_of a g p0) with
-                           | Some burst => Bool.eqb allow (used_of a g c <? burst)
-                           | None => true
-                           end
+                      then Bool.eqb allow (used_of a g c <? burst_of (pol_of a g p0))
                       else allow
                   | _, _ => allow
                   end
@@ -121,7 +123,7 @@ Record ost := {
 Definition o_init (p0 : policy) (l0 : option N) : ost :=
   {| o_tag := p_maxsize p0; o_old := []; o_pols := [(p_maxsize p0, p0)]; o_inflight := []; o_draining := false;
      o_issue := []; o_conn := []; o_exec := []; o_epoch := 0;
-     o_lim := if p_enable p0 then match l0 with Some _ => p_cfg p0 | None => None end else None;
+     o_lim := if p_enable p0 then match l0 with Some _ => Some (burst_of p0) | None => None end else None;
      o_cnt := [] |}.
 Definition alookup {A} (k : N) (l : list (N * A)) : option A :=
   match find (fun e => fst e =? k) l with Some e => Some (snd e) | None => None end.
@@ -199,8 +201,7 @@ Definition ostep (o : ost) (l : label) (ob : list N) : ost * bool :=
       let tg := nth_obs ob 0 in
       let p := alookup tg (o_pols o) in
       let newlim := match p with
-                    | Some q => if p_enable q then match p_cfg q with Some b => Some (Some b) | None => None end
-                                else Some None
+                    | Some q => if p_enable q then Some (Some (burst_of q)) else Some None
                     | None => None
                     end in
       (with_fields o tg (o_tag o :: o_old o) (o_pols o) (removeN u (o_inflight o)) false (o_issue o) (o_conn o)
